@@ -234,7 +234,7 @@ fn hot_reloading_thread(
     select.recv(&cache_msg);
     select.recv(&events);
 
-    loop {
+    'main: loop {
         // We don't use `select` method here as we always want to check
         // `cache_msg` channel first.
         let ready = select.ready();
@@ -254,7 +254,9 @@ fn hot_reloading_thread(
                 }
                 Ok(CacheMessage::Clear) => cache.clear_local_cache(),
                 Ok(CacheMessage::AddAsset(infos)) => cache.add_asset(infos),
-                Err(_) => break,
+                Err(crossbeam_channel::TryRecvError::Empty) => break,
+                // The cache was dropped, we can stop now
+                Err(crossbeam_channel::TryRecvError::Disconnected) => break 'main,
             }
         }
 
